@@ -209,7 +209,8 @@ class Parser(object):
 
         try:
             nodes = self.parse_file(path)
-        except (file_processor.CyclicIncludeError, file_processor.FileNotFoundError) as e:
+        except (file_processor.CyclicIncludeError, file_processor.FileNotFoundError,
+                file_processor.NotTextError) as e:
             self._parser_error(str(e), t.lineno(3), t.lexpos(3))
             nodes = []
 
